@@ -324,16 +324,22 @@ def replay_generic(ctx: Ctx, doc: dict) -> int:
 # C03 — deserializers on truncated / hostile bytes
 # ============================================================================================
 
-def valid_serialisations(ctx, case, cname, n, lossless=False):
+def valid_serialisations(ctx, case, cname, n, lossless=False, refusals=False):
+    """valid objects with their serialisations; with refusals=True an object the serializer refuses is returned with the
+    exception in place of the bytes (C01: a valid value must serialise)"""
     cls = case.run.get_class(cname)
     ci = case.info.cls(cname)
     out = []
     for _ in range(n):
         try:
             obj = cls(**ci.random_kwargs(ctx.rng, valid=True, lossless=lossless))
-            out.append((obj, genlib.ser_bytes(cls, obj, False)))
-        except Exception:  # noqa: BLE001 - not this property's business
+        except Exception:  # noqa: BLE001 - constructibility is C02's business
             continue
+        try:
+            out.append((obj, genlib.ser_bytes(cls, obj, False)))
+        except Exception as ex:  # noqa: BLE001
+            if refusals:
+                out.append((obj, ex))
     return out
 
 
@@ -467,9 +473,20 @@ def run_c01(ctx: Ctx):
             n_spec += 1
             for cname in case.info.classes():
                 cls = case.run.get_class(cname)
-                for obj, data in valid_serialisations(ctx, case, cname, _effort(ctx, 6 if (ctx.tier == "thorough") else 4), lossless=True):
+                for obj, data in valid_serialisations(ctx, case, cname, _effort(ctx, 6 if (ctx.tier == "thorough") else 4), lossless=True,
+                                                      refusals=True):
                     n_obj += 1
                     ro = genlib.render(obj)
+                    if isinstance(data, Exception):
+                        # a valid value the serializer refuses: inside the theorem's domain (where the model serializer
+                        # accepts it, `model_serialize_refuses_iff`) that is a failed round trip
+                        dom0, ms0 = ctx.driver.ask([f"gen rtdomain {cname} {ro.rsplit(' ', 1)[0]} 0", f"gen ser {cname} 0 {ro}"])
+                        if dom0 == "ok unambiguous 1 rtvalue 1" and ms0.startswith("ok "):
+                            fails(ctx, case, f"{cname}: serialising the valid object {ro[:200]} raised {type(data).__name__}: {data}",
+                                  {"class": cname, "object": ro, "error": f"{type(data).__name__}: {data}"})
+                            return
+                        ctx.count("outside_theorem_domain.serialize_refuses")
+                        continue
                     reader = case.run.EoReader(data)
                     try:
                         back = _with_alarm(lambda: cls.deserialize(reader), 2.0)
